@@ -53,7 +53,12 @@ Inductive rnd :=
 | RDate (min days : Z) (stamp : bool) (p : Q)      (* DateRangeRandomizer       *)
 | RValue (v : value) (p : Q)                       (* Value-/SparseBoolRandomizer *)
 | RSample (vals : list value) (counts : option (list Z)) (p : Q)
-| RText (p : Q).                                   (* Text-/BlindTextRandomizer: oracle *)
+| RText (arg : tmpl) (p : Q).
+    (* Text-/BlindTextRandomizer.  [arg] = the declared arguments (template / sentence_count, dialect,
+       entropy, keep_first, words_per_sentence) as the call to fabulist carries them.  fabulist itself
+       is an ORACLE: it answers its arguments' echo followed by arbitrary text taken from the stream
+       (the harness's stand-in, and its wrapper around the real fabulist, prefix the answer with the
+       arguments they were called with), so passing other arguments than the declared ones is visible *)
 
 Inductive sval := SV (v : value) | SR (r : rnd).
 Definition spec := list (text * sval).              (* a Python dict, insertion order *)
@@ -120,9 +125,9 @@ Definition gen (r : rnd) (s : stream) : value * stream :=
   | RSample vals counts p =>
       let (sk, s1) := skip_value p s in
       if sk then (VNone, s1) else let (d, s2) := next s1 in (sample vals counts d, s2)
-  | RText p =>
+  | RText arg p =>
       let (sk, s1) := skip_value p s in
-      if sk then (VNone, s1) else let (d, s2) := next s1 in (VStr (dt d), s2)
+      if sk then (VNone, s1) else let (d, s2) := next s1 in (VStr (arg ++ dt d), s2)
   end.
 
 (* ------------------------------------------------------ str(int), format() *)
@@ -210,6 +215,23 @@ Definition apply_cb (cb : callback) (data : list (text * value)) : list (text * 
 Definition fac_of (c : option sval) : Z :=
   match c with Some (SV (VFac n)) => n | _ => 0 end.
 
+(* range(count) accepts ints and bools; everything falsy became 0 before ([... or 0]: None, 0.0, "");
+   any other value – a non-zero float, a non-empty str, a date, a class, a function – makes
+   range() raise TypeError *)
+Definition countable (v : value) : bool :=
+  match v with
+  | VNone | VBool _ | VInt _ => true
+  | VFlt q => Qeq_bool q 0%Q
+  | VStr t => forallb (fun k => match k with Lit [] => true | _ => false end) t
+  | _ => false
+  end.
+Definition count_err (c : option sval) (s : stream) : bool :=
+  match c with
+  | None => false
+  | Some (SV v) => negb (countable v)
+  | Some (SR r) => negb (countable (fst (gen r s)))
+  end.
+
 (* count = spec.pop(":count", 1); count = _resolve_random(count) or 0 *)
 Definition resolve_count (c : option sval) (s : stream) : nat * stream :=
   match c with
@@ -266,10 +288,15 @@ Section Build.
     let (ch, s3) := if mem nt rels then rec nt p s2 else ([], s2) in
     (G nt fac data ch, s3).                              (* node_data = factory(data as keywords) *)
 
+  (* the trace of a TypeError raised by range(count): the whole build fails (see [raised]) *)
+  Definition err_node (nt : text) : gt := G nt (-1) [] [].
+
   (* one relation: for node_type, spec in child_specs.items() *)
   Definition make_group (rec : text -> text -> stream -> list gt * stream)
              (prefix : text) (e : text * spec) (s : stream) : list gt * stream :=
     let m := merge_specs (fst e) (snd e) types in
+    if count_err (lookup K_count m) s then ([err_node (fst e)], s)      (* for i in range(count): TypeError *)
+    else
     let (cnt, s1) := resolve_count (lookup K_count m) s in
     smap (make_node rec (fst e) (cb_of (lookup K_callback m)) (fac_of (lookup K_factory m)) (strip m) prefix)
          (seq 1%nat cnt) s1.
@@ -299,6 +326,10 @@ Section Build.
   Definition def_accepted : bool := mem K_root rels.
 End Build.
 
+(* did range(count) raise somewhere?  (then build_random_tree raises TypeError and returns nothing) *)
+Fixpoint raised (t : gt) : bool :=
+  match t with G _ fac _ ch => (fac =? -1) || existsb raised ch end.
+
 (* node.kind of the generated nodes: the type name in a TypedTree, none in a Tree *)
 Definition kind_of (typed : bool) (t : gt) : option text :=
   if typed then Some (g_type t) else None.
@@ -315,5 +346,5 @@ Definition ctor_ok (r : rnd) : bool :=
   | RRangeI lo hi p _ => pok p && (lo <? hi)
   | RRangeF lo hi p _ => pok p && negb (Qle_bool hi lo)
   | RDate _ days _ p => pok p && (0 <? days)
-  | RValue _ p | RSample _ _ p | RText p => pok p
+  | RValue _ p | RSample _ _ p | RText _ p => pok p
   end.
